@@ -52,6 +52,9 @@ func TestMain(m *testing.M) {
 	glue.LoadRegistry()
 	intermediate.MaxRetries = 1 << 30
 	if rp := ev.LoadReplay(); rp != nil {
+		if rp.Phase == "linearizability" || rp.Phase == "race_lin" {
+			ev.RunReplay(rp, runLin)
+		}
 		ev.RunReplay(rp, func(c Case) *ev.Failure { f, _ := runCase(c); return f })
 	}
 	rec = ev.New("C13", "generated concurrent programs under the race detector: up to 6 ingesting goroutines (one per reporting stream; the two nodes of an inter-node flow are different goroutines touching the same flow record) feeding records directly (AggregateMsgByFlowKey) or through Start()'s worker pool (1..8 workers, batch-wise so that each stream stays in order), concurrently with 1..6 auxiliary goroutines running expiry scans (callback snapshots and resets), GetNumFlows, GetRecords, GetExpiryFromExpirePriorityQueue and virtual-time shifts; GOMAXPROCS from {2,4,16}; oracle: per stream and delta counter, sum ingested = sum exported in callbacks + what GetRecords shows at the end (no lost or doubled update), per-node end time/totals = the stream's last record, no flow handed to the callback more often than time was advanced, every observed GetNumFlows between the flows certainly and possibly created, Stop returns; non-trivial = two goroutines ingested into a common flow while a scan ran; distinct by hash of the case",
